@@ -33,6 +33,36 @@ MARK = {
 }
 
 
+_PARTIAL = {}
+
+
+def partial_entries(arch):
+    """instructions (as text) whose model entry lacks throughput but has a latency, or vice versa: flagged with one of
+    tp_unknown / lt_unknown only"""
+    if arch not in _PARTIAL:
+        from lib import entries
+        from osaca.parser import ParserAArch64, ParserX86ATT
+        from osaca.semantics import MachineModel
+        out = []
+        try:
+            mm = MachineModel(arch=arch)
+            isa = mm.get_ISA()
+            parser = ParserX86ATT() if isa == "x86" else ParserAArch64()
+            for name, fs in mm._data["instruction_forms_dict"].items():
+                for f in fs:
+                    if (f.throughput is None) != (f.latency is None):
+                        try:
+                            t = entries.entry_text(isa, name, f.operands, 0)
+                            if parser.parse_line(t, 1).mnemonic is not None:
+                                out.append(t)
+                        except Exception:
+                            pass
+        except Exception:
+            pass
+        _PARTIAL[arch] = out[:40]
+    return _PARTIAL[arch]
+
+
 @st.composite
 def cases(draw, isa, archs, kernels):
     name, _, lines = draw(st.sampled_from(kernels))
@@ -66,6 +96,11 @@ def cases(draw, isa, archs, kernels):
         body.insert(draw(st.integers(0, len(body))), "# just a comment" if isa == "x86" else "// just a comment")
     select = draw(st.sampled_from(["marked", "unmarked", "unmarked", "lines"]))
     arch = draw(st.sampled_from(list(archs) + [None]))
+    # an instruction whose entry has only part of the data (throughput missing, latency known, or the reverse)
+    if arch is not None and mode != "heavy" and draw(st.integers(0, 2)) == 0:
+        pe = partial_entries(arch)
+        if pe:
+            body.insert(draw(st.integers(0, len(body))), draw(st.sampled_from(pe)))
     return {"isa": isa, "kernel": name, "body": body, "select": select, "arch": arch,
             "fixed": draw(st.booleans()), "ignore_unknown": draw(st.booleans()),
             "flagdeps": draw(st.integers(0, 4)) == 0}
@@ -201,6 +236,22 @@ def check_case(case):
     # LCD list vs the analysis' loop-carried dependencies
     dg = rec.graphs[-1]
     lcd = dg.get_loopcarried_dependencies()
+    # CP column marks exactly the critical-path lines; LCD column exactly the members of one maximal cycle
+    cp_lines = {x.line_number: float(x.latency_cp) for x in dg.get_critical_path()}
+    cp_marked = {l["lineno"]: float(l["cp"]) for l in rep["lines"] if l["cp"] != ""}
+    if set(cp_marked) != set(cp_lines):
+        raise Violation("cp-marks:" + tag, "CP column does not mark exactly the lines of the critical path",
+                        sorted(cp_marked), sorted(cp_lines))
+    lcd_marked = {l["lineno"] for l in rep["lines"] if l["lcd"] != ""}
+    if lcd:
+        mx = max(float(v["latency"]) for v in lcd.values())
+        cands = [{n.line_number for n, _ in v["dependencies"]} for v in lcd.values() if float(v["latency"]) == mx]
+        if lcd_marked not in cands:
+            raise Violation("lcd-marks:" + tag, "LCD column does not mark exactly the members of one longest "
+                            "loop-carried dependency", sorted(lcd_marked), [sorted(c) for c in cands])
+    elif lcd_marked:
+        raise Violation("lcd-marks:" + tag, "LCD column marks lines although there is no loop-carried dependency",
+                        sorted(lcd_marked), [])
     exp_list = sorted((round(float(v["latency"]), 1), sorted(n.line_number for n, _ in v["dependencies"]))
                       for v in lcd.values())
     got_list = sorted((round(l["latency"], 1), sorted(l["lines"])) for l in rep["lcds"])
@@ -243,6 +294,8 @@ def check_case(case):
     cl = [isa, "arch:" + str(case["arch"]), "select:" + case["select"], "fixed" if case["fixed"] else "optimal"]
     if n_unknown:
         cl.append("unknown-instruction" + ("+ignore" if case["ignore_unknown"] else ""))
+    if any(("tp_unknown" in y["Flags"]) != ("lt_unknown" in y["Flags"]) for y in klines):
+        cl.append("partially-known-instruction")
     if big:
         cl.append("value>=10")
     if rep["summary"] and any(c and float(c) >= 100 for c in rep["summary"]["cells"]):
